@@ -248,6 +248,11 @@ fn history(ctx: &Ctx, rep: &mut Report, case_seed: u64, variant: u64, always_flu
 					let live = sh.live.lock().unwrap();
 					if live.is_empty() {
 						None
+					} else if r.chance(1, 2) {
+						// the oldest live tree: the pruner's next victim, and the tree the other
+						// readers go for as well - several threads ask for its reader at the same
+						// moment, again and again from the "no reader handle exists" state
+						live.iter().next().map(|(k, s)| (k.clone(), s.clone()))
 					} else {
 						let i = r.usize(live.len());
 						live.iter().nth(i).map(|(k, s)| (k.clone(), s.clone()))
